@@ -53,6 +53,7 @@ var controlTable = []control{
 	{"C03", "epoch-64-bits-again", "version/version.go", "strconv.ParseInt(trimmed[:colon], 10, strconv.IntSize)", "strconv.ParseInt(trimmed[:colon], 10, 64)", "C03-EPOCHWIDTH"},
 	// C04
 	{"C04", "newline-not-a-name-terminator", "dependency/parser.go", "case ' ', '\\t', '\\r', '\\n', '(':\n\t\t\terr := parsePossibilityControllers(input, ret)", "case ' ', '\\t', '\\r', '(':\n\t\t\terr := parsePossibilityControllers(input, ret)", "C04-TOKENS"},
+	{"C04", "byte-after-dollar-skipped-unseen", "dependency/parser.go", "if input.Peek() != '{' {\n\t\treturn errors.New(\"Expected '{' after the '$' of a substvar\")\n\t}\n", "", "C04-LANG"},
 	{"C04", "anything-after-substvar", "dependency/parser.go", "default:\n\t\t\t\treturn fmt.Errorf(\"Trailing garbage after a substvar: %c\", peek)", "default:\n\t\t\t\trelation.Possibilities = append(relation.Possibilities, *ret)\n\t\t\t\treturn nil", "C04-LANG"},
 	{"C04", "second-version-guard-removed", "dependency/parser.go", "if possi.Version != nil {", "if false {", "C04-LANG"},
 	{"C04", "second-arch-guard-removed", "dependency/parser.go", "if len(possi.Architectures.Architectures) != 0 {", "if false {", "C04-LANG"},
